@@ -541,33 +541,209 @@ Proof.
   destruct (graph_ok _ _ _ _ _) as [[|]| |]; try discriminate. intros H; inversion H. eauto.
 Qed.
 
-(** * every step preserves the invariant *)
-Ltac unchanged := cbn [finish fst]; split; [assumption|apply Keeps_same; reflexivity].
+(** ** operations on the spec itself: sheet, path, explicit deletion *)
+Definition KeepsX (e : option key) (st st' : state) : Prop :=
+  forall s, In s (st_specs st) ->
+    (exists s', In s' (st_specs st') /\ s_id s' = s_id s /\ s_grp s' = s_grp s)
+    \/ In (s_grp s) (st_closed st')
+    \/ tget (s_grp s, s_val s) (st_tab st') = None
+    \/ e = Some (s_grp s, s_val s).
+Lemma Keeps_X e st st' : Keeps st st' -> KeepsX e st st'.
+Proof. intros H s Hs. destruct (H s Hs) as [K|[K|K]]; auto. Qed.
 
-Theorem step_inv fuel st o : Inv st -> Inv (fst (step fuel st o)) /\ Keeps st (fst (step fuel st o)).
+Lemma SP_map sp nx (f : spec -> spec) :
+  SP sp nx ->
+  (forall s, s_id (f s) = s_id s /\ s_io (f s) = s_io s /\ s_grp (f s) = s_grp s /\
+             s_val (f s) = s_val s /\ s_kind (f s) = s_kind s) ->
+  (forall s s', In s sp -> In s' sp -> s <> s' -> s_grp s = s_grp s' -> s_path (f s) = s_path (f s') ->
+      s_kind s = KExcel /\ exists a b, s_sheet (f s) = Some a /\ s_sheet (f s') = Some b /\ a <> b) ->
+  (forall s s', In s sp -> In s' sp -> s_grp s = s_grp s' -> (s_path (f s) = s_path (f s') <-> s_path s = s_path s')) ->
+  SP (map f sp) nx.
 Proof.
-  intros HI. destruct o as [m s|m s n|ow n p ft sh v vk|ow n p v ok|ow n v|ow n|m old new vk|m s b|m s b|m];
-    cbn [step].
-  - apply graph_op_inv; auto. apply new_space_shape.
-  - apply graph_op_inv; auto. apply new_cells_shape.
-  - apply create_inv; auto.
-  - apply create_inv; auto.
+  intros [Hlt Hnd Hun Hloc Hio] Hf H3 H4. constructor.
+  - intros s' Hs'. apply in_map_iff in Hs'. destruct Hs' as [s [<- Hs]].
+    destruct (Hf s) as [E1 [E2 _]]. rewrite E1, E2. apply Hlt; auto.
+  - rewrite map_map. erewrite map_ext; [apply Hnd|]. intros s. apply (Hf s).
+  - intros s1' s2' H1 H2 Eg Ev. apply in_map_iff in H1, H2.
+    destruct H1 as [s1 [<- H1]], H2 as [s2 [<- H2]].
+    destruct (Hf s1) as [_ [_ [G1 [V1 _]]]], (Hf s2) as [_ [_ [G2 [V2 _]]]].
+    f_equal. apply Hun; auto; congruence.
+  - intros s1' s2' H1 H2 Eg Ep Hne. apply in_map_iff in H1, H2.
+    destruct H1 as [s1 [<- H1]], H2 as [s2 [<- H2]].
+    destruct (Hf s1) as [_ [_ [G1 [_ K1]]]], (Hf s2) as [_ [_ [G2 _]]].
+    assert (Hne0 : s1 <> s2) by (intros E; subst; apply Hne; auto).
+    destruct (H3 s1 s2 H1 H2 Hne0 ltac:(congruence) Ep) as [K R]. split; [congruence|auto].
+  - intros s1' s2' H1 H2. apply in_map_iff in H1, H2.
+    destruct H1 as [s1 [<- H1]], H2 as [s2 [<- H2]].
+    destruct (Hf s1) as [_ [I1 [G1 [_ K1]]]], (Hf s2) as [_ [I2 [G2 [_ K2]]]].
+    destruct (Hio s1 s2 H1 H2) as [Hiff Hk]. rewrite I1, I2, G1, G2, K1, K2. split; auto. split.
+    + intros [Eg Ep]. apply Hiff. split; auto. apply (H4 s1 s2 H1 H2 Eg); auto.
+    + intros E. apply Hiff in E. destruct E as [Eg Ep]. split; auto. apply (H4 s1 s2 H1 H2 Eg); auto.
+Qed.
+
+Lemma Inv_map st (f : spec -> spec) :
+  Inv st ->
+  (forall s, s_id (f s) = s_id s /\ s_io (f s) = s_io s /\ s_grp (f s) = s_grp s /\
+             s_val (f s) = s_val s /\ s_kind (f s) = s_kind s) ->
+  SP (map f (st_specs st)) (st_next st) ->
+  Inv (with_specs st (map f (st_specs st))) /\ Keeps st (with_specs st (map f (st_specs st))).
+Proof.
+  intros [Hrt Hsp Hlive Hcl] Hf HSP. split.
+  - constructor; simpl; auto.
+    + intros s' Hs' _. apply in_map_iff in Hs'. destruct Hs' as [s [<- Hs]].
+      destruct (Hf s) as [_ [_ [G [V _]]]]. rewrite G, V. apply Hlive; auto. discriminate.
+    + intros s' Hs'. apply in_map_iff in Hs'. destruct Hs' as [s [<- Hs]].
+      destruct (Hf s) as [_ [_ [G _]]]. rewrite G. apply Hcl; auto.
+  - intros s Hs. left. exists (f s). simpl. split; [apply in_map; auto|].
+    destruct (Hf s) as [I [_ [G _]]]. auto.
+Qed.
+
+Lemma set_sheet_inv st m v sh st' : Inv st -> set_sheet st m v sh = Ok st' -> Inv st' /\ Keeps st st'.
+Proof.
+  intros HI. pose proof HI as [Hrt Hsp Hlive Hcl]. unfold set_sheet.
+  destruct (is_closed st m); [discriminate|].
+  destruct (get_spec m v (st_specs st)) as [su|] eqn:G; [|discriminate].
+  apply get_spec_some in G. destruct G as [Hsu _].
+  set (file := filter (same_file (s_grp su) (s_path su)) (st_specs st)).
+  set (f := fun c => if N.eqb (s_id c) (s_id su) then with_sheet c sh else c).
+  assert (Hbody :
+    (if existsb (fun c => negb (N.eqb (s_id c) (s_id su))) file && match sh with None => true | Some _ => false end
+     then Err
+     else if forallb (fun c => can_update_other c su sh) file
+          then Ok (with_specs st (map f (st_specs st))) else Err) = Ok st' -> Inv st' /\ Keeps st st').
+  { destruct (existsb (fun c => negb (N.eqb (s_id c) (s_id su))) file &&
+              match sh with None => true | Some _ => false end) eqn:GD; [discriminate|].
+    destruct (forallb (fun c => can_update_other c su sh) file) eqn:FA; [|discriminate].
+    intros H; inversion H; subst st'; clear H.
+    rewrite forallb_forall in FA.
+    assert (Hf : forall s, s_id (f s) = s_id s /\ s_io (f s) = s_io s /\ s_grp (f s) = s_grp s /\
+                           s_val (f s) = s_val s /\ s_kind (f s) = s_kind s).
+    { intros s. unfold f. destruct (N.eqb (s_id s) (s_id su)); simpl; auto. }
+    assert (Hpath : forall s, s_path (f s) = s_path s).
+    { intros s. unfold f. destruct (N.eqb (s_id s) (s_id su)); simpl; auto. }
+    assert (Hupd : forall s, In s (st_specs st) -> s_id s = s_id su -> s = su).
+    { intros s Hs E. eapply NoDup_map_inj; [apply (sp_nodup _ _ Hsp)| | |]; eauto. }
+    (* another spec of the same file forces a named, different sheet *)
+    assert (Hother : forall c, In c (st_specs st) -> c <> su -> s_grp c = s_grp su -> s_path c = s_path su ->
+                     forall b, s_sheet c = Some b -> exists a, sh = Some a /\ a <> b).
+    { intros c Hc Hne Eg Ep b Sb.
+      assert (Hin : In c file) by (apply filter_In; split; auto; apply same_file_true; auto).
+      assert (Hid : N.eqb (s_id c) (s_id su) = false).
+      { apply N.eqb_neq. intros E. apply Hne. apply Hupd; auto. }
+      destruct sh as [a|].
+      - exists a. split; auto. specialize (FA c Hin). unfold can_update_other in FA.
+        rewrite Hid, Sb in FA. simpl in FA. apply negb_true_iff, N.eqb_neq in FA. auto.
+      - exfalso. apply andb_false_iff in GD. destruct GD as [GD|GD]; [|discriminate].
+        assert (existsb (fun c0 => negb (N.eqb (s_id c0) (s_id su))) file = true).
+        { apply existsb_exists. exists c. rewrite Hid. auto. }
+        congruence. }
+    apply Inv_map; auto. apply SP_map; auto.
+    - intros s s' Hs Hs' Hne Eg Ep. rewrite !Hpath in Ep.
+      destruct (sp_loc _ _ Hsp s s' Hs Hs' Eg Ep Hne) as [K [a [b [Sa [Sb Hab]]]]]. split; auto.
+      unfold f. destruct (N.eqb (s_id s) (s_id su)) eqn:E1, (N.eqb (s_id s') (s_id su)) eqn:E2; simpl.
+      + apply N.eqb_eq in E1, E2. exfalso. apply Hne. rewrite (Hupd s Hs E1), (Hupd s' Hs' E2). auto.
+      + apply N.eqb_eq in E1. pose proof (Hupd s Hs E1) as ->.
+        destruct (Hother s' Hs' (fun E => Hne (eq_sym E)) (eq_sym Eg) (eq_sym Ep) b Sb) as [a' [-> Hab']].
+        exists a', b. auto.
+      + apply N.eqb_eq in E2. pose proof (Hupd s' Hs' E2) as ->.
+        destruct (Hother s Hs Hne Eg Ep a Sa) as [b' [-> Hab']]. exists a, b'. auto.
+      + exists a, b. auto.
+    - intros s s' Hs Hs' Eg. rewrite !Hpath. tauto. }
+  destruct (s_kind su); auto; discriminate.
+Qed.
+
+Lemma set_path_inv st m v p st' : Inv st -> set_path st m v p = Ok st' -> Inv st' /\ Keeps st st'.
+Proof.
+  intros HI. pose proof HI as [Hrt Hsp Hlive Hcl]. unfold set_path.
+  destruct (is_closed st m); [discriminate|].
+  destruct (get_spec m v (st_specs st)) as [su|] eqn:G; [|discriminate].
+  destruct (N.eqb p (s_path su)) eqn:EP.
+  { intros H; inversion H; subst. split; auto. apply Keeps_same; auto. }
+  apply N.eqb_neq in EP.
+  destruct (existsb (same_file (s_grp su) p) (st_specs st)) eqn:EX; [discriminate|].
+  intros H; inversion H; subst st'; clear H.
+  set (f := fun c => if same_file (s_grp su) (s_path su) c then with_path c p else c).
+  assert (Hfree : forall s, In s (st_specs st) -> s_grp s = s_grp su -> s_path s = p -> False).
+  { intros s Hs Eg Ep0. assert (existsb (same_file (s_grp su) p) (st_specs st) = true).
+    { apply existsb_exists. exists s. split; auto. apply same_file_true; auto. }
+    congruence. }
+  assert (Hf : forall s, s_id (f s) = s_id s /\ s_io (f s) = s_io s /\ s_grp (f s) = s_grp s /\
+                         s_val (f s) = s_val s /\ s_kind (f s) = s_kind s).
+  { intros s. unfold f. destruct (same_file (s_grp su) (s_path su) s); simpl; auto. }
+  assert (Hsheet : forall s, s_sheet (f s) = s_sheet s).
+  { intros s. unfold f. destruct (same_file (s_grp su) (s_path su) s); simpl; auto. }
+  assert (H4 : forall s s', In s (st_specs st) -> In s' (st_specs st) -> s_grp s = s_grp s' ->
+               (s_path (f s) = s_path (f s') <-> s_path s = s_path s')).
+  { intros s s' Hs Hs' Eg. unfold f.
+    destruct (same_file (s_grp su) (s_path su) s) eqn:F1, (same_file (s_grp su) (s_path su) s') eqn:F2; simpl.
+    - apply same_file_true in F1, F2. destruct F1, F2. split; congruence.
+    - apply same_file_true in F1. destruct F1 as [G1 P1]. split.
+      + intros E. exfalso. apply (Hfree s' Hs'); congruence.
+      + intros E. exfalso. assert (same_file (s_grp su) (s_path su) s' = true) by (apply same_file_true; split; congruence).
+        congruence.
+    - apply same_file_true in F2. destruct F2 as [G2 P2]. split.
+      + intros E. exfalso. apply (Hfree s Hs); congruence.
+      + intros E. exfalso. assert (same_file (s_grp su) (s_path su) s = true) by (apply same_file_true; split; congruence).
+        congruence.
+    - tauto. }
+  apply Inv_map; auto. apply SP_map; auto.
+  intros s s' Hs Hs' Hne Eg Ep. apply (H4 s s' Hs Hs' Eg) in Ep. rewrite !Hsheet.
+  apply (sp_loc _ _ Hsp); auto.
+Qed.
+
+Lemma del_spec_op_inv st m v st' :
+  Inv st -> del_spec_op st m v = Ok st' -> Inv st' /\ KeepsX (Some (m, v)) st st'.
+Proof.
+  intros HI. pose proof HI as [Hrt Hsp Hlive Hcl]. unfold del_spec_op.
+  destruct (is_closed st m); [discriminate|].
+  destruct (get_spec m v (st_specs st)) as [su|] eqn:G; [|discriminate].
+  intros H; inversion H; subst st'; clear H. apply get_spec_some in G. destruct G as [Hsu [Hg Hv]]. split.
+  - constructor; simpl; auto.
+    + apply SP_filter; auto.
+    + intros s Hs _. apply in_del_spec in Hs. apply Hlive; [tauto|discriminate].
+    + intros s Hs. apply in_del_spec in Hs. apply Hcl; tauto.
+  - intros s Hs. destruct (N.eq_dec (s_id s) (s_id su)) as [E|E].
+    + right; right; right. assert (s = su) by (eapply NoDup_map_inj; [apply (sp_nodup _ _ Hsp)| | |]; eauto).
+      subst. congruence.
+    + left. exists s. simpl. split; auto. apply in_del_spec. auto.
+Qed.
+
+(** * every step preserves the invariant *)
+Ltac unchanged := cbn [finish fst]; split; [assumption|apply Keeps_X, Keeps_same; reflexivity].
+
+Theorem step_inv fuel st o :
+  Inv st -> Inv (fst (step fuel st o)) /\ KeepsX (explicit o) st (fst (step fuel st o)).
+Proof.
+  intros HI.
+  destruct o as [m s|m s n|ow n p ft sh v vk|ow n p v ok|ow n v|ow n|m old new vk|m s b|m s b|m|m v sh|m v p|m v];
+    cbn [step explicit].
+  - destruct (graph_op_inv st (new_space st m s) HI (new_space_shape st m s)); split; auto using Keeps_X.
+  - destruct (graph_op_inv st (new_cells fuel st m s n) HI (new_cells_shape fuel st m s n)); split; auto using Keeps_X.
+  - destruct (create_inv fuel st ow n p (kind_of_ft ft) (fun k => load_ok_pandas k vk) sh v HI); split; auto using Keeps_X.
+  - destruct (create_inv fuel st ow n p KModule (fun k => match k with KModule => ok | _ => false end) None v HI);
+      split; auto using Keeps_X.
   - destruct (is_closed st (fst ow)); [unchanged|].
     destruct (set_attr fuel st ow n v) as [st'| |] eqn:SA; [|unchanged|unchanged].
     cbn [finish fst]. split.
     + apply (set_attr_inv _ _ _ _ _ _ _ SA HI).
-    + apply (set_attr_keeps fuel st ow n v st' (or_introl HI) SA).
+    + apply Keeps_X. apply (set_attr_keeps fuel st ow n v st' (or_introl HI) SA).
   - unfold del_attr. destruct (is_closed st (fst ow)); [unchanged|].
     destruct (find_ref ow n (st_refs st)) as [r|] eqn:F; [|unchanged].
     cbn [finish fst]. apply find_ref_some in F. split.
     + apply rm_del_ref_inv; tauto.
-    + apply rm_del_ref_keeps; auto.
+    + apply Keeps_X. apply rm_del_ref_keeps; auto.
   - destruct (update st m old new vk) as [st'| |] eqn:U; [|unchanged|unchanged].
-    cbn [finish fst]. eapply update_inv; eauto.
-  - apply graph_op_inv; auto. apply add_base_shape.
-  - apply graph_op_inv; auto. apply remove_base_shape.
+    cbn [finish fst]. destruct (update_inv _ _ _ _ _ _ HI U). split; auto using Keeps_X.
+  - destruct (graph_op_inv st (add_base fuel st m s b) HI (add_base_shape fuel st m s b)); split; auto using Keeps_X.
+  - destruct (graph_op_inv st (remove_base fuel st m s b) HI (remove_base_shape fuel st m s b)); split; auto using Keeps_X.
   - destruct (close st m) as [st'| |] eqn:U; [|unchanged|unchanged].
-    cbn [finish fst]. eapply close_inv; eauto.
+    cbn [finish fst]. destruct (close_inv _ _ _ HI U). split; auto using Keeps_X.
+  - destruct (set_sheet st m v sh) as [st'| |] eqn:U; [|unchanged|unchanged].
+    cbn [finish fst]. destruct (set_sheet_inv _ _ _ _ _ HI U). split; auto using Keeps_X.
+  - destruct (set_path st m v p) as [st'| |] eqn:U; [|unchanged|unchanged].
+    cbn [finish fst]. destruct (set_path_inv _ _ _ _ _ HI U). split; auto using Keeps_X.
+  - destruct (del_spec_op st m v) as [st'| |] eqn:U; [|unchanged|unchanged].
+    cbn [finish fst]. apply (del_spec_op_inv _ _ _ _ HI U).
 Qed.
 
 Lemma run_from_inv fuel ops : forall st, Inv st -> Inv (fold_left (fun st o => fst (step fuel st o)) ops st).
